@@ -41,7 +41,7 @@ def run(prog, rep, tier):
     r4_3(prog, rep)
     r4_4(prog, rep)
     n = shared.ownership_rule(prog, rep, "R4.5")
-    if n < 8:
+    if n is not None and n < 8:
         raise AnalysisError(f"R4.5: only {n} Term(...) constructor sites found (floor 8)")
     r4_6(prog, rep)
     # labels and columns of a group-specific block (e|g[l]): same product order, same groups, labels read from the training
@@ -406,3 +406,8 @@ def r4_6(prog, rep):
         it["rule"] = "R4.6"
         rep.items.append(it)
         rep.counts["R4.6"] = rep.counts.get("R4.6", 0) + 1
+
+
+from ..core import guard_rules  # noqa: E402
+
+guard_rules(globals())
